@@ -11,6 +11,7 @@ import (
 	"sort"
 	"strconv"
 	"strings"
+	"sync"
 	"sync/atomic"
 	"time"
 )
@@ -271,7 +272,35 @@ func flagSet(name string) bool {
 
 func harness(format string, a ...interface{}) {
 	fmt.Fprintf(os.Stderr, "HARNESS-ERROR: "+format+"\n", a...)
+	killChildren()
 	os.Exit(ExitHarness)
+}
+
+// children of the parent process that are still running (killed when the parent
+// gives up, so that no worker outlives the check)
+var (
+	childMu  sync.Mutex
+	children = map[*os.Process]bool{}
+)
+
+func trackChild(p *os.Process, alive bool) {
+	childMu.Lock()
+	defer childMu.Unlock()
+
+	if alive {
+		children[p] = true
+	} else {
+		delete(children, p)
+	}
+}
+
+func killChildren() {
+	childMu.Lock()
+	defer childMu.Unlock()
+
+	for p := range children {
+		_ = p.Kill()
+	}
 }
 
 // ---------------------------------------------------------------------------------------------
@@ -361,6 +390,21 @@ func workerMain(eng Engine, o *Options) {
 	start := time.Now()
 	deadline := start.Add(time.Duration(o.CapSec) * time.Second)
 
+	writeResult := func() {
+		res.Stats = toWire(st)
+
+		b, err := json.Marshal(res)
+		if err != nil {
+			harness("marshal result: %v", err)
+		}
+
+		if err := os.WriteFile(o.Out, b, 0o644); err != nil {
+			harness("write result: %v", err)
+		}
+	}
+
+	startWatchdog()
+
 	for i := o.Index; i < total; i += o.Workers {
 		if i%64 < o.Workers && time.Now().After(deadline) {
 			res.Capped = true
@@ -370,7 +414,9 @@ func workerMain(eng Engine, o *Options) {
 		seed := RunSeed(o.Seed, o.Property, i)
 		t := NewTape(seed)
 		t.Keep = len(st.Samples) < 2 && o.Index == 0
+		watchRun(i)
 		v := RunOne(eng, o.Property, t, st)
+		watchIdle()
 
 		if t.Keep && v == nil && t.Events > 0 {
 			tr := t.Trace
@@ -382,22 +428,117 @@ func workerMain(eng Engine, o *Options) {
 		}
 
 		if v != nil {
+			// The violation is on file as found before it is minimised: should a shrunk
+			// candidate never return (the harness or the code under test loops on it), the
+			// watchdog ends the process and the parent still has the unshrunk tape.
+			res.Violation = &ReplayFile{
+				Property: o.Property, Tier: o.Tier, Engine: eng.Name(), TreeHash: o.TreeHash, Seed: seed, BaseSeed: o.Seed, RunIndex: i,
+				Tape: t.Rec, OriginalLen: len(t.Rec), Signature: v.Signature(), Message: v.Message, EventHash: "not-comparable",
+				Trace:       []string{"(unshrunk tape: minimisation did not finish; the trace is printed by ./run.sh replay)"},
+				WorkerFirst: o.Index, WorkerStep: o.Workers,
+			}
+			writeResult()
+
+			watchMinimise()
 			res.Violation = minimise(eng, o, seed, i, t.Rec, v, known)
+			watchIdle()
 			res.Violation.WorkerFirst, res.Violation.WorkerStep = o.Index, o.Workers
+
 			break
 		}
 	}
 
-	res.Stats = toWire(st)
+	writeResult()
+}
 
-	b, err := json.Marshal(res)
-	if err != nil {
-		harness("marshal result: %v", err)
+// ---------------------------------------------------------------------------------------------
+// watchdog: a run that never returns
+
+// StallLimit is how long a single run may take before the process gives up on it.
+// Runs take milliseconds (E7 with a large page: seconds); the limit is two orders
+// of magnitude above the slowest run seen under full load.
+var StallLimit = 120 * time.Second
+
+var (
+	watchPhase atomic.Int32 // 0 idle, 1 run of the search, 2 minimising
+	watchSince atomic.Int64 // unix nanoseconds
+	watchIndex atomic.Int64
+	watchOnce  sync.Once
+)
+
+func watchRun(i int) {
+	watchIndex.Store(int64(i))
+	watchSince.Store(time.Now().UnixNano())
+	watchPhase.Store(1)
+}
+
+func watchMinimise() {
+	watchSince.Store(time.Now().UnixNano())
+	watchPhase.Store(2)
+}
+
+func watchIdle() { watchPhase.Store(0) }
+
+// startWatchdog starts the goroutine that ends the process when a run of the
+// search has not returned within StallLimit (reported like a fatal runtime
+// error: all goroutine stacks, then a "fatal error:" line naming the run), or
+// when minimisation hangs (exit 0: the unshrunk result is already on file).
+func startWatchdog() {
+	watchOnce.Do(func() {
+		if s := os.Getenv("VERIF_STALL_LIMIT_S"); s != "" {
+			if n, err := strconv.Atoi(s); err == nil && n > 0 {
+				StallLimit = time.Duration(n) * time.Second
+			}
+		}
+
+		go func() {
+			for {
+				time.Sleep(time.Second)
+
+				ph := watchPhase.Load()
+				if ph == 0 {
+					continue
+				}
+
+				limit := StallLimit
+				if ph == 2 {
+					limit += 90 * time.Second // minimisation has its own budget of 60 s between candidates
+				}
+
+				if time.Since(time.Unix(0, watchSince.Load())) < limit {
+					continue
+				}
+
+				if ph == 2 {
+					fmt.Fprintf(os.Stderr, "minimisation did not finish within %s: the violation is reported with its unshrunk tape\n", limit)
+					os.Exit(0)
+				}
+
+				buf := make([]byte, 1<<20)
+				buf = buf[:runtime.Stack(buf, true)]
+				os.Stderr.Write(buf)
+				fmt.Fprintf(os.Stderr, "\nfatal error: %s run %d did not return within %s\n", stallMarker, watchIndex.Load(), StallLimit)
+				os.Exit(3)
+			}
+		}()
+	})
+}
+
+const stallMarker = "verif-stall:"
+
+// stalledRun extracts the run index from a watchdog dump, or -1.
+func stalledRun(log string) int {
+	i := strings.LastIndex(log, "fatal error: "+stallMarker+" run ")
+	if i < 0 {
+		return -1
 	}
 
-	if err := os.WriteFile(o.Out, b, 0o644); err != nil {
-		harness("write result: %v", err)
+	var n int
+	if _, err := fmt.Sscanf(log[i+len("fatal error: "+stallMarker+" run "):], "%d", &n); err != nil {
+		return -1
 	}
+
+	return n
 }
 
 // minimise shrinks a failing tape while the run still ends in the same
@@ -626,7 +767,11 @@ func replayMain(engines map[string]Engine, propEngine map[string]string, o *Opti
 
 	if rf.FromSeed {
 		st := NewStats(known)
+
+		startWatchdog()
+		watchRun(rf.RunIndex)
 		RunOne(eng, rf.Property, NewTape(rf.Seed), st)
+		watchIdle()
 
 		return ExitOK
 	}
@@ -768,8 +913,11 @@ func parentMain(eng Engine, o *Options) int {
 				continue
 			}
 
+			trackChild(cmd.Process, true)
+
 			go func(w int) {
 				errs[w] = procs[w].cmd.Wait()
+				trackChild(procs[w].cmd.Process, false)
 				done <- w
 				<-sem
 			}(w)
@@ -1070,6 +1218,21 @@ func isLibraryFatal(log string) bool {
 	return fatal && strings.Contains(log, pkgPrefix)
 }
 
+// stackOfMain cuts the stack of the main goroutine out of a dump of all stacks.
+func stackOfMain(log string) string {
+	i := strings.Index(log, "goroutine 1 [")
+	if i < 0 {
+		return log
+	}
+
+	rest := log[i:]
+	if j := strings.Index(rest, "\n\n"); j > 0 {
+		rest = rest[:j]
+	}
+
+	return rest
+}
+
 func fatalLine(log string) string {
 	for _, l := range strings.Split(log, "\n") {
 		if strings.HasPrefix(l, "fatal error:") || strings.HasPrefix(l, "runtime: out of memory") || strings.HasPrefix(l, "runtime: goroutine stack exceeds") {
@@ -1093,6 +1256,19 @@ func locateFatal(eng Engine, o *Options, tmp string, virtual, total int, fw fata
 		os.Remove(out)
 
 		return err != nil && isLibraryFatal(string(b)), string(b)
+	}
+
+	if idx := stalledRun(fw.log); idx >= 0 {
+		// the watchdog names the run; the parent's confirmation replay re-executes it
+		line := fatalLine(fw.log[strings.LastIndex(fw.log, "fatal error: "+stallMarker):])
+
+		return &ReplayFile{
+			Property: o.Property, Tier: o.Tier, Engine: eng.Name(), TreeHash: o.TreeHash,
+			Seed: RunSeed(o.Seed, o.Property, idx), BaseSeed: o.Seed, RunIndex: idx, FromSeed: true,
+			Signature: o.Property + "|returns|runtime|run-does-not-return",
+			Message:   "an operation does not return (library code on the stack when the watchdog gave up): " + line + "\n" + clipTail(stackOfMain(fw.log), 3000),
+			EventHash: "not-comparable", Trace: []string{"(the run is re-executed from its seed; it does not return)"},
+		}
 	}
 
 	lo, hi := fw.index, total // runs with index < lo are fine; the worker dies when it may run indexes < hi
